@@ -282,6 +282,17 @@ def _hyp_worker(part, strategy_factory, check, examples, seed, known, deadline_a
             remaining -= max(state["n"], 1)
         except hypothesis.errors.Flaky as error:  # noqa
             raise HarnessError("flaky check in part %s: %s" % (part, error))
+        except Exception:
+            # Hypothesis' shrinker can trip over its own replay (seen: ValueError in intervalsets.index while
+            # re-aligning text choices). If a discrepancy had already been found, report it with the smallest case
+            # seen so far instead of losing it; otherwise this is a harness error.
+            if state["last_fail"] is None:
+                raise
+            sig, case, message = state["last_fail"]
+            found.add(sig)
+            sub.fail(sig, case, message)
+            sub.notes["shrink-aborted"] = "hypothesis raised while shrinking; reported the last failing case seen"
+            remaining -= max(state["n"], 1)
     return sub
 
 
@@ -344,8 +355,9 @@ def write_evidence(ctx, module, violations):
         "wall_s": round(ctx.elapsed(), 2),
         "violations": violations,
     }
-    os.makedirs(os.path.join(VERIF, "evidence"), exist_ok=True)
-    path = os.path.join(VERIF, "evidence", ctx.prop_id + ".json")
+    evidence_dir = os.environ.get("VERIF_EVIDENCE_DIR") or os.path.join(VERIF, "evidence")  # self-tests redirect it
+    os.makedirs(evidence_dir, exist_ok=True)
+    path = os.path.join(evidence_dir, ctx.prop_id + ".json")
     tmp = path + ".tmp"
     with open(tmp, "w", encoding="utf-8") as f:
         json.dump(evidence, f, indent=1, ensure_ascii=True, default=str)
@@ -377,11 +389,12 @@ def report(ctx, module):
     write_evidence(ctx, module, len(unknown))
     if not unknown:
         return 0
-    os.makedirs(os.path.join(VERIF, "replays"), exist_ok=True)
+    replay_dir = os.environ.get("VERIF_REPLAY_DIR") or os.path.join(VERIF, "replays")
+    os.makedirs(replay_dir, exist_ok=True)
     for sig, entry in unknown.items():
         case = entry["cases"][0] if entry["cases"] else None
         name = "%s-%016x.json" % (ctx.prop_id, h64(sig))
-        path = os.path.join(VERIF, "replays", name)
+        path = os.path.join(replay_dir, name)
         with open(path, "w", encoding="utf-8") as f:
             json.dump({"property": ctx.prop_id, "signature": sig, "message": entry["message"],
                        "count": entry["count"], "case": case}, f, indent=1, default=str)
